@@ -3,10 +3,13 @@ package main
 import (
 	"bytes"
 	"errors"
+	"fmt"
 	"math/rand"
+	"os"
 	"reflect"
 	"runtime"
 	"sync"
+	"syscall"
 	"time"
 
 	"github.com/bluenviron/gomavlib/v3/pkg/dialect"
@@ -45,10 +48,33 @@ func (w *failWriter) Write(p []byte) (int, error) {
 			n = len(p)
 		}
 		w.buf.Write(p[:n])
-		return n, errSentinel
+		return n, w.injected()
 	}
 	w.buf.Write(p)
 	return len(p), nil
+}
+
+// temporaryErr: an error of the kind that says "try again" (Temporary() and Timeout() report true)
+type temporaryErr struct{}
+
+func (temporaryErr) Error() string   { return "verif: resource temporarily unavailable" }
+func (temporaryErr) Temporary() bool { return true }
+func (temporaryErr) Timeout() bool   { return true }
+
+// injected: what the failing call returns - a plain error, a deadline, EAGAIN inside a PathError, EINTR wrapped, an error
+// that calls itself temporary (the type of the error must not matter: the write failed, part of the data may be out)
+func (w *failWriter) injected() error {
+	switch w.failAt % 5 {
+	case 1:
+		return os.ErrDeadlineExceeded
+	case 2:
+		return &os.PathError{Op: "write", Path: "log", Err: syscall.EAGAIN}
+	case 3:
+		return fmt.Errorf("sink: %w", syscall.EINTR)
+	case 4:
+		return temporaryErr{}
+	}
+	return errSentinel
 }
 
 type tentry struct {
@@ -223,7 +249,7 @@ func cmdTlog(o opts) {
 				}
 				es = append(es, M{"sec": le(uint64(e.sec), 8), "nsec": e.nsec, "f": e.f, "d": e.d, "vals": vals,
 					"ok": err == nil && !pan, "panic": pan, "inj": fw.failed,
-					"reported_injected": err != nil && errors.Is(err, errSentinel),
+					"reported_injected": err != nil && errors.Is(err, fw.injected()),
 					"grew":              B(append([]byte{}, fw.buf.Bytes()[before:]...))})
 				if fw.failed {
 					break // after a transport failure the file is the application's problem
